@@ -96,4 +96,21 @@ var c11Benign = []core.Mutant{
 	{Name: "compute-sort-counting-loop", File: c11fCompute,
 		Find:    "\tfor _, r := range results {\n\t\tr.SortByIndex()\n\t}\n",
 		Replace: "\tfor n := 0; n < len(results); n++ {\n\t\tresults[n].SortByIndex()\n\t}\n"},
+
+	// ---- round 3: the update built once before the location loop, closures handed around, loops in other forms, grouped parameters
+	{Name: "update-built-once-before-location-loop", File: c11fCompute,
+		Find:    "\t\t\t\t\tfor _, cl := range locs {\n\t\t\t\t\t\tu := child[k].Update()\n\t\t\t\t\t\tu.Index = cl.Index\n\t\t\t\t\t\tupdates = append(updates, u)\n\t\t\t\t\t}\n",
+		Replace: "\t\t\t\t\tu := child[k].Update()\n\t\t\t\t\tfor _, cl := range locs {\n\t\t\t\t\t\tu.Index = cl.Index\n\t\t\t\t\t\tupdates = append(updates, u)\n\t\t\t\t\t}\n"},
+	{Name: "locations-via-closure-helper", File: c11fCompute,
+		Find:    "\t\t\t\t\tfor _, cl := range locs {\n\t\t\t\t\t\tu := child[k].Update()\n\t\t\t\t\t\tu.Index = cl.Index\n\t\t\t\t\t\tupdates = append(updates, u)\n\t\t\t\t\t}\n",
+		Replace: "\t\t\t\t\teach := func(f func(index int)) {\n\t\t\t\t\t\tfor i := 0; i < len(locs); i++ {\n\t\t\t\t\t\t\tf(locs[i].Index)\n\t\t\t\t\t\t}\n\t\t\t\t\t}\n\t\t\t\t\teach(func(at int) {\n\t\t\t\t\t\tu := child[k].Update()\n\t\t\t\t\t\tu.Index = at\n\t\t\t\t\t\tupdates = append(updates, u)\n\t\t\t\t\t})\n"},
+	{Name: "window-ranges-over-subslice", File: c11fCompute,
+		Find:    "\t\t\tfor k := start; k < nextVersion; k++ {\n\t\t\t\tif child[k].Visible {\n\t\t\t\t\t// It's possible for this child to be present at multiple locations in the parent\n\t\t\t\t\tfor _, cl := range locs {\n\t\t\t\t\t\tu := child[k].Update()\n\t\t\t\t\t\tu.Index = cl.Index\n\t\t\t\t\t\tupdates = append(updates, u)\n\t\t\t\t\t}\n\t\t\t\t} else {\n\t\t\t\t\t// A child has become not-visible between parent version.\n\t\t\t\t\t// This is a data inconsistency that can happen in old data\n\t\t\t\t\t// i.e. pre element versioning.\n\t\t\t\t\t//\n\t\t\t\t\t// see node 321452894, changed 7 times in\n\t\t\t\t\t// the same changeset, version 5 was a delete. (also node 65172196)\n\t\t\t\t\tif !opts.IgnoreInconsistency {\n\t\t\t\t\t\treturn nil, fmt.Errorf(\"%v: %v: child deleted between parent versions\",\n\t\t\t\t\t\t\tparent.ID(), fid)\n\t\t\t\t\t}\n\t\t\t\t}\n\t\t\t}\n\n",
+		Replace: "\t\t\tif start < nextVersion {\n\t\t\t\tfor _, version := range child[start:nextVersion] {\n\t\t\t\t\tif !version.Visible {\n\t\t\t\t\t\tif !opts.IgnoreInconsistency {\n\t\t\t\t\t\t\treturn nil, fmt.Errorf(\"%v: %v: child deleted between parent versions\",\n\t\t\t\t\t\t\t\tparent.ID(), fid)\n\t\t\t\t\t\t}\n\n\t\t\t\t\t\tcontinue\n\t\t\t\t\t}\n\n\t\t\t\t\tfor _, cl := range locs {\n\t\t\t\t\t\tu := version.Update()\n\t\t\t\t\t\tu.Index = cl.Index\n\t\t\t\t\t\tupdates = append(updates, u)\n\t\t\t\t\t}\n\t\t\t\t}\n\t\t\t}\n\n"},
+	{Name: "setchild-counting-loop-grouped-struct", File: c11fCompute,
+		Find:    "\t\t\tfor _, cl := range locs {\n\t\t\t\tparent.SetChild(cl.Index, c)\n\t\t\t}\n",
+		Replace: "\t\t\ttype target struct {\n\t\t\t\tp  Parent\n\t\t\t\tls childLocs\n\t\t\t}\n\t\t\tjob := target{p: parent, ls: locs}\n\t\t\tfor n := 0; n < len(job.ls); n++ {\n\t\t\t\tjob.p.SetChild(job.ls[n].Index, c)\n\t\t\t}\n"},
+	{Name: "current-child-through-closure", File: c11fCompute,
+		Find:    "\t\t\tc := child.FindVisible(\n\t\t\t\tparent.ChangesetID(),\n\t\t\t\ttimeThresholdParent(parent, 0),\n\t\t\t\topts.Threshold,\n\t\t\t)\n",
+		Replace: "\t\t\tcurrent := func(eps time.Duration) *shared.Child {\n\t\t\t\tat := timeThresholdParent(parent, 0)\n\t\t\t\treturn child.FindVisible(parent.ChangesetID(), at, eps)\n\t\t\t}\n\t\t\tc := current(opts.Threshold)\n"},
 }
